@@ -84,7 +84,8 @@ impl World for OneshotWorld {
         v
     }
     fn enum_configs(&self, tier: Tier) -> Vec<(Cfg, usize)> {
-        let k = if tier == Tier::Quick { 2 } else { 3 };
+        let k = 3;
+        let _ = tier;
         let mut v = Vec::new();
         for flavour in [FL_CHECKED, FL_SHARED_CHECKED] {
             for mode in [0u8, 1] {
@@ -625,7 +626,9 @@ fn run_m<M: RawMutex + 'static>(cfg: &Cfg, ops: &[Op], run: &mut Run) {
     let r = lib_call(|| drop(chan_owner));
     if let Err(msg) = r {
         run.violate("C01", "panic", format!("dropping the channel panicked: {}", msg));
-        return;
+        if run.failed() {
+            return;
+        }
     }
     for id in 0..ids as u16 {
         let live = payload::live(id);
@@ -635,7 +638,9 @@ fn run_m<M: RawMutex + 'static>(cfg: &Cfg, ops: &[Op], run: &mut Run) {
                 "value-lifecycle",
                 format!("value v{}: {} clones, {} drops after the channel and all futures are gone ({} live instances)", id, payload::clones(id), payload::drops(id), live),
             );
-            return;
+            if run.failed() {
+                return;
+            }
         }
     }
 }
@@ -660,7 +665,9 @@ fn monitors<M: RawMutex + 'static>(chan: &Chan<M>, m: &Model, slots: &[Slot<RFut
                     "not-woken",
                     format!("slot {} is pending on a {} channel and has not been woken through its latest waker", i, if m.st == St::Sent { "fulfilled" } else { "closed" }),
                 );
-                return;
+                if run.failed() {
+                    return;
+                }
             }
         }
     }
@@ -668,7 +675,9 @@ fn monitors<M: RawMutex + 'static>(chan: &Chan<M>, m: &Model, slots: &[Slot<RFut
     if let Some(id) = m.sent_id {
         if payload::live(id) < 0 {
             run.violate("C12", "value-lifecycle", format!("value v{} was dropped {} times but only {} instances exist", id, payload::drops(id), 1 + payload::clones(id)));
-            return;
+            if run.failed() {
+                return;
+            }
         }
     }
     for (i, s) in slots.iter().enumerate() {
@@ -679,7 +688,9 @@ fn monitors<M: RawMutex + 'static>(chan: &Chan<M>, m: &Model, slots: &[Slot<RFut
             }
             if t != s.done {
                 run.violate("C17", "is_terminated-mismatch", format!("slot {}: is_terminated() == {} but completed == {}", i, t, s.done));
-                return;
+                if run.failed() {
+                    return;
+                }
             }
         }
     }
